@@ -7,6 +7,7 @@ from hypothesis import strategies as st
 from eaopack.optimization import OptimProblem
 
 from .. import core, gen, build, obs, lpkit
+from .. import timeline as tl
 from ..core import Outcome, is_err, eao_call
 
 ID = "C03"
@@ -17,13 +18,13 @@ RULE = ("Generated: (raw) problems with 1-12 variables and 0-14 rows of all four
         "contradicting pair with margin 1; mapping with duplicated rows; 'bool' column absent / all False / mixed / NaN "
         "for LP-only rows; booleans with bounds [0,1], [0,0], [1,1] and non-0/1 bounds ([-0.5,1.5], [0,0.75], [0.25,1], [-1,2], [1.25,1.5], [-1,-0.5]); "
         "in 20% the problem object is edited in place (row type, coefficient or right-hand side) and optimised again; (portfolio) assembled LP and MIP problems of "
-        "generated portfolios, monolithic and split; x solver in {default, CLARABEL, SCIPY, SCIP}; make_soft_problem "
+        "generated portfolios, monolithic and split, 1 in 6 cases fixed supply/demand profiles with a market in part of the horizon (split intervals in which every variable is fixed, balanced or contradictory); x solver in {default, CLARABEL, SCIPY, SCIP}; make_soft_problem "
         "on MIPs. Oracle: if Results: bounds, every row by its class, integrality of flagged variables, value = -c.x, "
         "|value - V*| <= tol with V* from scipy-HiGHS on the same arrays; if 'not successful': HiGHS proves "
         "infeasibility; 'inaccurate': no claim. Split: slice of x per interval feasible/optimal, value = sum. "
         "Non-trivial: optimal with >= 3 row classes present and >= 2 classes tight at the optimum, or a MIP whose "
         "LP relaxation is strictly better, or a proven-infeasible case. Distinct = distinct spec hash.")
-ASSUMPTIONS = ["scipy's HiGHS (linprog / milp with mip_rel_gap=0) is the reference optimum",
+ASSUMPTIONS = ["scipy's HiGHS (linprog / milp with mip_rel_gap=0) is the reference optimum; on a MIP disagreement an exact enumeration of the booleans (<= 12) or a feasibility witness decides (DESIGN 12)",
                "interface='ortools' cannot be executed (package absent); SCS/OSQP (first-order, no usable objective "
                "tolerance) are not exercised",
                "tolerances: residual 1e-6*(1+scale), value 2e-5*(1+|V|) LP, 2e-4*(1+|V|) MIP"]
@@ -90,8 +91,37 @@ def _pf(draw):
     return spec
 
 
+@st.composite
+def _profiles(draw):
+    """fixed profiles (min_cap = max_cap per step) for supply and demand at one node, a flexible market only in part of
+    the horizon: intervals of the split build in which every variable is fixed, consistently (balanced) or not"""
+    g = draw(gen.grids(min_T=4, max_T=12))
+    T = g["T"]
+    dt = tl.dt(g)
+    cx = gen.Cx(g, ["n0"], {"p0": draw(gen.price_series(T))})
+    dem = [draw(st.sampled_from([0.5, 1.0, 2.0])) for _ in range(T)]
+    sup = list(dem)
+    if draw(st.booleans()):
+        t_bad = draw(st.integers(0, T - 1))
+        sup[t_bad] += draw(st.sampled_from([0.5, -0.25]))
+    cd = cx.new_col([-q / dt[t] for t, q in enumerate(dem)])
+    cs = cx.new_col([q / dt[t] for t, q in enumerate(sup)])
+    s0 = draw(st.integers(0, T - 1))
+    e0 = draw(st.integers(s0 + 1, T))
+    cap = 8.0 / float(dt.min())
+    assets = [{"type": "simple", "name": "demand", "nodes": ["n0"], "price": None, "min_cap": {"col": cd}, "max_cap": {"col": cd},
+               "extra_costs": 0.0, "wacc": 0.0, "start": None, "end": None},
+              {"type": "simple", "name": "supply", "nodes": ["n0"], "price": "p0", "min_cap": {"col": cs}, "max_cap": {"col": cs},
+               "extra_costs": 0.0, "wacc": 0.0, "start": None, "end": None},
+              {"type": "simple", "name": "market", "nodes": ["n0"], "price": "p0", "min_cap": -cap, "max_cap": cap,
+               "extra_costs": 0.25, "wacc": 0.0, "start": s0, "end": e0}]
+    return {"kind": "portfolio", "grid": g, "prices": cx.prices, "assets": assets, "profiles": True,
+            "split": draw(st.sampled_from([None, "6h", "12h", "d", "d"])),
+            "solver": draw(st.sampled_from([None, "SCIPY", "CLARABEL"])), "soft": False}
+
+
 def strategy(tier):
-    return st.one_of(_raw(), _raw(), _pf())
+    return st.one_of(_raw(), _raw(), _raw(), _pf(), _pf(), _profiles())
 
 
 def build_raw(spec):
@@ -280,7 +310,9 @@ def check(spec):
         return out.drop("setup_error:" + r.op.kind)
     ops = r.op.ops if split else [r.op]
     mip = r.is_mip
-    out.label("mip" if mip else "lp", "build:split" if split else "build:monolithic")
+    out.label("mip" if mip else "lp", "build:split" if split else "build:monolithic", "fixed_profiles" if spec.get("profiles") else None)
+    if split and any(len(o.c) and np.all(np.asarray(o.l) == np.asarray(o.u)) for o in ops):
+        out.label("interval_fully_fixed")
     if solver == "CLARABEL" and mip:
         solver = None
     if solver is None and mip:
